@@ -933,6 +933,7 @@ namespace bloch::runtime {
     void RuntimeEvaluator::buildClassTable(Program& program) {
         m_classTable.clear();
         m_genericTemplates.clear();
+        m_buildingClassTable = true;
 
         bool hasExplicitObjectClass = false;
         for (const auto& clsNode : program.classes) {
@@ -1096,6 +1097,7 @@ namespace bloch::runtime {
             if (rc->staticStorage.size() < rc->staticFields.size())
                 rc->staticStorage.resize(rc->staticFields.size());
         }
+        m_buildingClassTable = false;
     }
 
     RuntimeClass* RuntimeEvaluator::instantiateGeneric(
@@ -1220,7 +1222,10 @@ namespace bloch::runtime {
         if (rc->staticStorage.size() < rc->staticFields.size())
             rc->staticStorage.resize(rc->staticFields.size());
         m_classTable[key] = rc;
-        initStaticFields(rc.get());
+        // While the class table is being laid out, classes are visited in an order derived from
+        // the source; execute() runs every static initialiser afterwards in a fixed order.
+        if (!m_buildingClassTable)
+            initStaticFields(rc.get());
         return rc.get();
     }
 
